@@ -48,8 +48,11 @@ def r1(ctx, R):
             R.bad(oe, c, "a computed value is stored although the cells is uncached")
     R.inst("on_eval_formula: uncached branch re-executes the formula and stores nothing")
     fcs = [c for c in q.calls(oe, name="altfunc")]
-    unc = [c for c in fcs if ("self.is_cached", "F") in q.guards_of(oe, c)]
-    if not unc:
+    # with is_cached false the formula runs, nothing is stored and the function returns
+    r_unc = q.run_abstract(oe, lambda e: "F" if norm(e) == "self.is_cached" else None)
+    unc = [c for c in fcs if any(i in r_unc for i in q.nodes_for(oe, c))]
+    stored_unc = [c for c in st if any(i in r_unc for i in q.nodes_for(oe, c))]
+    if not unc or stored_unc or oe.cfg.exit not in r_unc:
         R.bad(oe, oe.node, "no uncached execution branch", stmt="else: altfunc(*key)")
     # callee-side guard?
     sv = ctx.func("CellsImpl.set_value_from_key")
